@@ -322,7 +322,9 @@ def rand_set(rng, dom, n, maxsize=12):
     make reduce / reduce_end / except_one / unique_sequences fire."""
     S = set()
     target = rng.randint(0, maxsize)
-    while len(S) < target:
+    tries = 0
+    while len(S) < target and tries < 4 * maxsize:
+        tries += 1
         r = rng.random()
         if r < 0.45 or n < 2:
             S.add(rand_seq(rng, dom, n))
@@ -416,12 +418,12 @@ Fixpoint bad {A} (f : A -> bool) (n : nat) (l : list A) : list nat :=
 Definition sem_ok (c : choices) (dom : list nat) (n : nat) (isv : list bool) (inf : bool) (fnone : bool) : bool :=
   let vs := all_vectors dom n in
   bools_eqb (map (is_valid c) vs) isv
-  && forallb (fun vb => if snd vb then memb vec_eqb (fst vb) (all c) else negb (memb vec_eqb (fst vb) (all c))) (combine vs isv)
+  && forallb (fun vb : list nat * bool => if snd vb then memb vec_eqb (fst vb) (all c) else negb (memb vec_eqb (fst vb) (all c))) (combine vs isv)
   && forallb (fun v => memb vec_eqb v vs) (all c)
   && Bool.eqb (infinite c) inf
   && match first c with
      | Ok None => fnone
-     | Ok (Some v) => negb fnone && existsb (fun vb => snd vb && vec_eqb (fst vb) v) (combine vs isv)
+     | Ok (Some v) => negb fnone && existsb (fun vb : list nat * bool => snd vb && vec_eqb (fst vb) v) (combine vs isv)
      | Err _ => false
      end.
 """
@@ -617,7 +619,7 @@ def search(ctx):
             simp_changed += (set(Choices.simplify(list(dom), set(S))) != set(S))
         except Exception:
             pass
-        if len(samples) < 4 and S and acc and t % 97 == 0:
+        if len(samples) < 4 and len(S) >= 3 and acc and len(acc) < len(dom) ** n and ev % 7 == 0:
             samples.append({"input": case, "accepted_vectors": len(acc), "of": len(dom) ** n})
         if r:
             record(case)
@@ -786,11 +788,11 @@ def correspondence(ctx):
             if c is not None and not build:
                 real_objs.append((dom, n, c))
     typ = "list nat * nat * list dseq * option (list bool * bool * bool)"
-    chk_gen = ("Definition chk (x : " + typ + ") : bool :=\n  let '(dom, n, S, e) := x in\n"
-               "  match generate ord_id pick_head fuel dom n S, e with\n"
+    chk_gen = ("Definition chk (x : " + typ + ") : bool :=\n  let '(dom, n, sq, e) := x in\n"
+               "  match generate ord_id pick_head fuel dom n sq, e with\n"
                "  | Ok c, Some (isv, inf, fnone) => sem_ok c dom n isv inf fnone\n  | Err IndexError, None => true\n  | _, _ => false end.\n")
-    chk_bld = ("Definition chk (x : " + typ + ") : bool :=\n  let '(dom, n, S, e) := x in\n"
-               "  match build_choices pick_head dom n S, e with\n"
+    chk_bld = ("Definition chk (x : " + typ + ") : bool :=\n  let '(dom, n, sq, e) := x in\n"
+               "  match build_choices pick_head dom n sq, e with\n"
                "  | Ok v, Some (isv, inf, fnone) => sem_ok (mk_choices v (Z.of_nat n)) dom n isv inf fnone\n  | Err IndexError, None => true\n  | _, _ => false end.\n")
     add("gen", gen_c, typ, chk_gen, gen_d)
     add("build", bld_c, typ, chk_bld, bld_d)
@@ -869,8 +871,8 @@ def correspondence(ctx):
                 "  | _ => match e with Some (_, after) => seqs_eqb (except_one dom before) after && (length (except_one dom before) =? length after) | None => false end\n  end.\n")
     add("pass", pass_c, typ_p, chk_pass, pass_d)
     typ_s = "list nat * nat * list dseq * list dseq"
-    chk_simp = ("Definition chk (x : " + typ_s + ") : bool :=\n  let '(dom, n, S, real) := x in\n"
-                "  match simplify ord_id fuel dom S with\n  | Ok m => forallb (fun v => Bool.eqb (acceptedb m v) (acceptedb real v) && Bool.eqb (acceptedb m v) (acceptedb S v)) (all_vectors dom n)\n"
+    chk_simp = ("Definition chk (x : " + typ_s + ") : bool :=\n  let '(dom, n, sq, real) := x in\n"
+                "  match simplify ord_id fuel dom sq with\n  | Ok m => forallb (fun v => Bool.eqb (acceptedb m v) (acceptedb real v) && Bool.eqb (acceptedb m v) (acceptedb sq v)) (all_vectors dom n)\n"
                 "  | Err _ => false end.\n")
     add("simp", simp_c, typ_s, chk_simp, simp_d)
 
@@ -938,8 +940,8 @@ def correspondence(ctx):
             exp = f"(Some ({q_bools(isv)}, {q_b(inf)}, {q_b(fnone)}))"
         edge_c.append(f"({q_nats(dom)}, {n}, {q_seqs(S_order)}, {exp})")
         edge_d.append(json.dumps(jcase("generate", dom, n, S_order)))
-    chk_edge = ("Definition chk (x : " + typ + ") : bool :=\n  let '(dom, n, S, e) := x in\n"
-                "  match generate ord_id pick_head fuel dom n S, e with\n"
+    chk_edge = ("Definition chk (x : " + typ + ") : bool :=\n  let '(dom, n, sq, e) := x in\n"
+                "  match generate ord_id pick_head fuel dom n sq, e with\n"
                 "  | Ok c, Some (isv, inf, fnone) => bools_eqb (map (is_valid c) (all_vectors dom n)) isv && Bool.eqb (infinite c) inf\n"
                 "  | Err IndexError, None => true\n  | _, _ => false end.\n")
     add("edge", edge_c, typ, chk_edge, edge_d)
